@@ -189,6 +189,7 @@ pub fn dump(full: bool) -> Result<String, String> {
     let mut conv = vec![];
     let mut hst = vec![];
     let mut sizes = vec![];
+    let mut size_err: Option<String> = None;
     // (declaration order of `enum Shape`)
     let order: [(&str, Dim); 13] = [
         ("point", Dim::Xy), ("point", Dim::Xym), ("point", Dim::Xyzm),
@@ -212,8 +213,10 @@ pub fn dump(full: bool) -> Result<String, String> {
         let read = ShapeReader::new(Cursor::new(shp)).and_then(|r| r.read()).map_err(|e| format!("generic read of a {} file: {}", alias, show_err(&e)))?;
         let rv = read.first().map(variant_name).ok_or("generic read yielded nothing")?;
         disp.push((name(&ht), rv.to_string(), Some(rv.to_string())));
-        let (c0, cp, cq) = fit_size(fam, *d)?;
-        sizes.push((alias.clone(), c0, cp, cq));
+        match fit_size(fam, *d) {
+            Ok((c0, cp, cq)) => sizes.push((alias.clone(), c0, cp, cq)),
+            Err(e) => size_err = Some(format!("{}: {}", alias, e)),
+        }
     }
     st_arms.push(("NullShape".to_string(), name(&Shape::NullShape.shapetype())));
     {
@@ -235,7 +238,11 @@ pub fn dump(full: bool) -> Result<String, String> {
         conv.iter().map(|(v, t)| format!("({}, {})", q(v), q(t))).collect::<Vec<_>>().join(", "),
     );
     out += &format!(" 'has_shapetype': {{{}}},\n", hst.iter().map(|(a, t)| format!("{}: {}", q(a), q(t))).collect::<Vec<_>>().join(", "));
-    out += &format!(" 'size_in_bytes': {{{}}},\n", sizes.iter().map(|(a, c0, cp, cq)| format!("{}: Aff({}, {}, {})", q(a), c0, cp, cq)).collect::<Vec<_>>().join(", "));
+    match &size_err {
+        None => out += &format!(" 'size_in_bytes': {{{}}},\n", sizes.iter().map(|(a, c0, cp, cq)| format!("{}: Aff({}, {}, {})", q(a), c0, cp, cq)).collect::<Vec<_>>().join(", ")),
+        // left out: the translator falls back to the source text for this section
+        Some(e) => out += &format!(" 'size_in_bytes_error': {},\n", q(&e.replace('\'', " "))),
+    }
     // ---------------- patch kinds: code written, kind read for a code, closing by with_parts
     let kind_of = |pch: &Patch| -> &'static str {
         match pch {
@@ -291,6 +298,24 @@ pub fn dump(full: bool) -> Result<String, String> {
         parms.iter().map(|(_, k)| format!("({}, {})", q(k), q(k))).collect::<Vec<_>>().join(", "),
         pclose.iter().map(|(k, c)| format!("({}, {}, {})", q(k), q(if *c { "points" } else { "_" }), q(if *c { "close_points_if_not_already(points)" } else { "{}" }))).collect::<Vec<_>>().join(", "),
     );
+    // ---------------- constants that show in the bytes
+    {
+        let (empty, _) = write_files(true, &[]);
+        let (one, onex) = write_files(true, &[Any::Point(Point::new(1.0, 2.0))]);
+        if empty.len() < 36 || one.len() < empty.len() + 12 {
+            return Err("written files are too short to read the constants from".into());
+        }
+        let file_code = i32::from_be_bytes([empty[0], empty[1], empty[2], empty[3]]);
+        let version = i32::from_le_bytes([empty[28], empty[29], empty[30], empty[31]]);
+        let header_size = empty.len();
+        let index_record_size = onex.len().saturating_sub(header_size);
+        // a Point record: record header, 4-byte type code, 16 bytes of coordinates
+        let record_header_size = one.len().saturating_sub(header_size + 4 + 16);
+        out += &format!(
+            " 'consts_exec': {{'fileCode': {}, 'version': {}, 'headerSize': {}, 'indexRecordSize': {}, 'recordHeaderSize': {}, 'noDataBits': {}}},\n",
+            file_code, version, header_size, index_record_size, record_header_size, NO_DATA.to_bits()
+        );
+    }
     out += &format!(" 'full_sweep': {},\n", if full { "True" } else { "False" });
     out += "}\n";
     Ok(out)
